@@ -513,6 +513,8 @@ def families(tier, seed):
         fams.append(clean_family("clean-grid-n5-one-group", clean_shapes("grid", 9, (5,), 0, 1), RADII, [P0], seed, single))
         fams.append(clean_family("clean-plumbing", clean_shapes("line", 6, (1, 2, 3, 4), 0, 2), r2, PLUMBING, seed, core))
 
+    from ..motlgen import with_row_index_kinds
+    fams.append(with_row_index_kinds(fams[-1], expect=("survivors-separated", "removed-dominated", "survivors-equal-greedy-model")))  # clean-plumbing x {gapped, reversed}
     tm_core = ("peaks-exceed-threshold", "peaks-separated", "supra-voxel-dominated", "peaks-equal-greedy-model",
                "peak-score-is-voxel-score", "peak-position-1based", "peak-angles")
     perms6 = list(itertools.permutations(range(6)))
